@@ -7,38 +7,77 @@ package lisp
 //@   panics never
 //@   ensures 0 <= cmd && cmd <= 3
 
+//@ spec abstract evalAstOut(x MalType, env EnvType, w World) Outcome
 //@ func EVAL(ctx, ast, env) (res, e)
 //@   requires validEnvVal(env)
+//@   requires Stepper == nil && !outing1 @C01,C03,C08,C12
 //@   panics never
+//@   changes world
+//@   ensures out(res, e, world()) == evalOut(ast, env, old(world())) @assume
+//@   loop 1 tailrec evalStep(ast, env, world(), OUT) @C01,C03,C08,C12
+//@   loop 1 continue evalOut(ast, env, world())
+//@   loop 1 result out(res, e, world())
 //@   loop 1 invariant validEnvVal(env)
 
 //@ func eval_ast(ctx, ast, env) (res, e)
 //@   requires validEnvVal(env)
+//@   requires Stepper == nil && !outing1 @C01,C03,C08,C12
 //@   panics never
+//@   changes world
 //@   ensures implies(e == nil && is(ast, List), is(res, List) && len(res.(List).Val) == len(ast.(List).Val))
+//@   ensures implies(is(ast, Symbol), ite(lookupOK(old(world()), envp(env), ast.(Symbol).Val), e == nil && res == lookupV(old(world()), envp(env), ast.(Symbol).Val), res == nil && e != nil) && world() == old(world())) @C01
+//@   ensures implies(is(ast, List), seqResult(lst(ast), env, old(world()), ite(e == nil, res.(List).Val, lst(ast)), e, world()) && implies(e == nil, is(res, List)) && implies(e != nil, res == nil)) @C01
+//@   ensures implies(is(ast, Vector), seqResult(ast.(Vector).Val, env, old(world()), ite(e == nil, res.(Vector).Val, ast.(Vector).Val), e, world()) && implies(e == nil, is(res, Vector)) && implies(e != nil, res == nil)) @C01
+//@   ensures implies(!is(ast, Symbol) && !is(ast, List) && !is(ast, Vector) && !is(ast, HashMap), res == ast && e == nil && world() == old(world())) @C01
+//@   ensures out(res, e, world()) == evalAstOut(ast, env, old(world())) @assume
 //@   loop 1 invariant len(lst) == rangeindex + 1
+//@   loop 1 invariant world() == seqW(lst(ast), rangeindex + 1, env, old(world())) && seqOK(lst(ast), rangeindex + 1, env, old(world())) && forall(j, 0, rangeindex + 1, lst[j] == outV(seqO(lst(ast), j, env, old(world())))) @C01
+//@   loop 2 invariant len(lst) == rangeindex + 1 && world() == seqW(ast.(Vector).Val, rangeindex + 1, env, old(world())) && seqOK(ast.(Vector).Val, rangeindex + 1, env, old(world())) && forall(j, 0, rangeindex + 1, lst[j] == outV(seqO(ast.(Vector).Val, j, env, old(world())))) @C01
 
+// do: evaluate the forms lst[from : len+to] in order; value of the last one (to == 0) or the
+// last form itself, unevaluated, for the caller to continue with (to == -1); nil when there are none
+//@ spec abstract doOut(ast MalType, from int, to int, env EnvType, w World) Outcome
+//@ spec doSub(ast MalType, from int, to int) []MalType = lst(ast)[from : len(lst(ast))+to]
+//@ spec doStep(ast MalType, from int, to int, env EnvType, w World, o Outcome) bool = ite(ast == nil || len(lst(ast)) == from, o == out(nil, nil, w), ite(!seqOK(doSub(ast, from, to), len(doSub(ast, from, to)), env, w), exists(k, 0, len(doSub(ast, from, to)), seqOK(doSub(ast, from, to), k, env, w) && outE(seqO(doSub(ast, from, to), k, env, w)) != nil && o == propagate(seqO(doSub(ast, from, to), k, env, w))), ite(to == 0, o == out(outV(seqO(doSub(ast, from, to), len(doSub(ast, from, to)) - 1, env, w)), nil, seqW(doSub(ast, from, to), len(doSub(ast, from, to)), env, w)), o == out(lst(ast)[len(lst(ast))-1], nil, seqW(doSub(ast, from, to), len(doSub(ast, from, to)), env, w)))))
 //@ func do(ctx, ast, from, to, env) (res, e)
 //@   requires validEnvVal(env)
+//@   requires Stepper == nil && !outing1 @C01,C03,C08,C12
 //@   requires ast == nil || is(ast, List)
 //@   requires from >= 0 && (to == 0 || to == -1)
 //@   requires ast == nil || from <= len(ast.(List).Val)
 //@   panics never
+//@   changes world
+//@   ensures doStep(ast, from, to, env, old(world()), out(res, e, world())) @C01
+//@   ensures out(res, e, world()) == doOut(ast, from, to, env, old(world())) @assume
 
+// macro expansion: while the form is a call whose head symbol is bound to a macro, apply the
+// macro to the UNEVALUATED operands and continue with the result
+//@ spec abstract mexpOut(x MalType, env EnvType, w World) Outcome
+//@ spec isMacroCall(x MalType, env EnvType, w World) bool = is(x, List) && len(lst(x)) > 0 && is(lst(x)[0], Symbol) && lookupOK(w, envp(env), lst(x)[0].(Symbol).Val) && is(lookupV(w, envp(env), lst(x)[0].(Symbol).Val), MalFunc) && lookupV(w, envp(env), lst(x)[0].(Symbol).Val).(MalFunc).IsMacro
+//@ spec mexpStep(x MalType, env EnvType, w World, o Outcome) bool = ite(!isMacroCall(x, env, w), o == out(x, nil, w), ite(outE(applyOut(lookupV(w, envp(env), lst(x)[0].(Symbol).Val), lst(x)[1:], w)) != nil, o == propagate(applyOut(lookupV(w, envp(env), lst(x)[0].(Symbol).Val), lst(x)[1:], w)), o == mexpOut(outV(applyOut(lookupV(w, envp(env), lst(x)[0].(Symbol).Val), lst(x)[1:], w)), env, outW(applyOut(lookupV(w, envp(env), lst(x)[0].(Symbol).Val), lst(x)[1:], w)))))
 //@ func macroexpand(ctx, ast, env) (res, e)
 //@   requires validEnvVal(env)
+//@   requires Stepper == nil && !outing1 @C01,C03,C08,C12
 //@   panics never
+//@   changes world
 //@   hint e == nil && res == ast
+//@   loop 1 tailrec mexpStep(ast, env, world(), OUT) @C01
+//@   loop 1 continue mexpOut(ast, env, world())
+//@   loop 1 result out(res, e, world())
+//@   ensures out(res, e, world()) == mexpOut(ast, env, old(world())) @assume
 
 //@ func is_macro_call(ast, env) (r)
 //@   requires validEnvVal(env)
 //@   panics never
 //@   assigns nothing
 //@   ensures implies(r, is(ast, List) && len(ast.(List).Val) > 0 && is(ast.(List).Val[0], Symbol))
-//@   ensures implies(r, lookupOK(ghost(envW), env.(*Env), ast.(List).Val[0].(Symbol).Val) && is(lookupV(ghost(envW), env.(*Env), ast.(List).Val[0].(Symbol).Val), MalFunc))
+//@   ensures implies(r, lookupOK(world(), env.(*Env), ast.(List).Val[0].(Symbol).Val) && is(lookupV(world(), env.(*Env), ast.(List).Val[0].(Symbol).Val), MalFunc))
+//@   ensures r == isMacroCall(ast, env, world()) @C01
 
 //@ func quasiquote(ast) (r)
 //@   panics never
+//@   assigns nothing
+//@   ensures r == qqV(ast) @assume
 
 //@ func qq_loop(xs) (r)
 //@   panics never
@@ -70,3 +109,39 @@ package lisp
 
 //@ func PRINT(ast) (r)
 //@   panics never
+
+// ======================================================================================
+// The language definition (C01, C03, C08, C12), written from the property statements over
+// the abstract world: evalOut / applyOut / fnOut and the scope operations are uninterpreted;
+// each function is proved to take exactly one step of the definition.
+// ======================================================================================
+
+//@ spec envp(e EnvType) *Env = e.(*Env)
+//@ spec lst(x MalType) []MalType = x.(List).Val
+//@ spec arg(x MalType, i int) MalType = ite(len(lst(x)) > i, lst(x)[i], nil)
+//@ spec propagate(o Outcome) Outcome = out(nil, outE(o), outW(o))
+//@ spec failure(o Outcome, w World) bool = outV(o) == nil && outE(o) != nil && outW(o) == w
+
+// evaluating the elements xs[0..j) left to right, each exactly once, threading the world
+//@ spec rec seqW(xs []MalType, j int, env EnvType, w World) World = ite(j <= 0, w, outW(evalOut(xs[j-1], env, seqW(xs, j-1, env, w))))
+//@ spec seqO(xs []MalType, j int, env EnvType, w World) Outcome = evalOut(xs[j], env, seqW(xs, j, env, w))
+//@ spec seqOK(xs []MalType, n int, env EnvType, w World) bool = forall(j, 0, n, outE(seqO(xs, j, env, w)) == nil)
+// seqResult: every element evaluated without error gives the list of the values; otherwise
+// the first error is returned as that object and the world is the one it left
+//@ spec seqResult(xs []MalType, env EnvType, w World, rs []MalType, e error, w2 World) bool = ite(seqOK(xs, len(xs), env, w), e == nil && len(rs) == len(xs) && forall(j, 0, len(xs), rs[j] == outV(seqO(xs, j, env, w))) && w2 == seqW(xs, len(xs), env, w), exists(k, 0, len(xs), seqOK(xs, k, env, w) && outE(seqO(xs, k, env, w)) != nil && e == outE(seqO(xs, k, env, w)) && w2 == outW(seqO(xs, k, env, w))))
+
+// ---- one step of EVAL --------------------------------------------------------------
+//@ spec abstract qqV(x MalType) MalType
+//@ spec head(y MalType) string = ite(is(lst(y)[0], Symbol), lst(y)[0].(Symbol).Val, "__<*fn>__")
+//@ spec firstErr(xs []MalType, env EnvType, w World, o Outcome) bool = exists(k, 0, len(xs), seqOK(xs, k, env, w) && outE(seqO(xs, k, env, w)) != nil && o == propagate(seqO(xs, k, env, w)))
+//@ spec bodyTail(forms []MalType, env EnvType, w World, o Outcome) bool = ite(len(forms) == 0, o == evalOut(nil, env, w), ite(!seqOK(forms[0:len(forms)-1], len(forms)-1, env, w), firstErr(forms[0:len(forms)-1], env, w, o), o == evalOut(forms[len(forms)-1], env, seqW(forms[0:len(forms)-1], len(forms)-1, env, w))))
+//@ spec defStep(y MalType, env EnvType, w World, o Outcome) bool = ite(outE(evalOut(arg(y, 2), env, w)) != nil, o == propagate(evalOut(arg(y, 2), env, w)), ite(is(arg(y, 1), Symbol), o == out(outV(evalOut(arg(y, 2), env, w)), nil, defW(outW(evalOut(arg(y, 2), env, w)), envp(env), arg(y, 1).(Symbol).Val, outV(evalOut(arg(y, 2), env, w)))), failure(o, outW(evalOut(arg(y, 2), env, w)))))
+//@ spec ifStep(y MalType, env EnvType, w World, o Outcome) bool = ite(outE(evalOut(arg(y, 1), env, w)) != nil, o == propagate(evalOut(arg(y, 1), env, w)), ite(outV(evalOut(arg(y, 1), env, w)) == nil || outV(evalOut(arg(y, 1), env, w)) == val(false), ite(len(lst(y)) >= 4, o == evalOut(lst(y)[3], env, outW(evalOut(arg(y, 1), env, w))), o == out(nil, nil, outW(evalOut(arg(y, 1), env, w)))), o == evalOut(arg(y, 2), env, outW(evalOut(arg(y, 1), env, w)))))
+//@ spec fnStep(y MalType, env EnvType, w World, o Outcome) bool = ite(len(lst(y)) < 2, failure(o, w), outE(o) == nil && outW(o) == w && is(outV(o), MalFunc) && outV(o).(MalFunc).Env == env && outV(o).(MalFunc).Params == arg(y, 1) && !outV(o).(MalFunc).IsMacro && is(outV(o).(MalFunc).Exp, List) && len(lst(outV(o).(MalFunc).Exp)) == len(lst(y)) - 1 && lst(outV(o).(MalFunc).Exp)[0] == val(Symbol{Val: "do"}) && forall(j, 2, len(lst(y)), lst(outV(o).(MalFunc).Exp)[j-1] == lst(y)[j]))
+//@ spec setMacro(f MalFunc) MalType = val(MalFunc{Eval: f.Eval, Exp: f.Exp, Env: f.Env, Params: f.Params, IsMacro: true, GenEnv: f.GenEnv, Meta: f.Meta, Cursor: f.Cursor})
+//@ spec defmacroStep(y MalType, env EnvType, w World, o Outcome) bool = ite(outE(evalOut(arg(y, 2), env, w)) != nil, o == propagate(evalOut(arg(y, 2), env, w)), ite(is(outV(evalOut(arg(y, 2), env, w)), MalFunc) && is(arg(y, 1), Symbol), o == out(setMacro(outV(evalOut(arg(y, 2), env, w)).(MalFunc)), nil, defW(outW(evalOut(arg(y, 2), env, w)), envp(env), arg(y, 1).(Symbol).Val, setMacro(outV(evalOut(arg(y, 2), env, w)).(MalFunc)))), failure(o, outW(evalOut(arg(y, 2), env, w)))))
+//@ spec callStep(y MalType, env EnvType, w World, o Outcome) bool = ite(outE(evalAstOut(y, env, w)) != nil, o == propagate(evalAstOut(y, env, w)), ite(is(lst(outV(evalAstOut(y, env, w)))[0], MalFunc), ite(bindE(outW(evalAstOut(y, env, w)), lst(outV(evalAstOut(y, env, w)))[0].(MalFunc).Env, lst(outV(evalAstOut(y, env, w)))[0].(MalFunc).Params, val(List{Val: lst(outV(evalAstOut(y, env, w)))[1:]})) != nil, failure(o, bindW(outW(evalAstOut(y, env, w)), lst(outV(evalAstOut(y, env, w)))[0].(MalFunc).Env, lst(outV(evalAstOut(y, env, w)))[0].(MalFunc).Params, val(List{Val: lst(outV(evalAstOut(y, env, w)))[1:]}))), o == evalOut(lst(outV(evalAstOut(y, env, w)))[0].(MalFunc).Exp, bindR(outW(evalAstOut(y, env, w)), lst(outV(evalAstOut(y, env, w)))[0].(MalFunc).Env, lst(outV(evalAstOut(y, env, w)))[0].(MalFunc).Params, val(List{Val: lst(outV(evalAstOut(y, env, w)))[1:]})), bindW(outW(evalAstOut(y, env, w)), lst(outV(evalAstOut(y, env, w)))[0].(MalFunc).Env, lst(outV(evalAstOut(y, env, w)))[0].(MalFunc).Params, val(List{Val: lst(outV(evalAstOut(y, env, w)))[1:]})))), ite(is(lst(outV(evalAstOut(y, env, w)))[0], Func), ite(outE(fnOut(lst(outV(evalAstOut(y, env, w)))[0].(Func).Fn, lst(outV(evalAstOut(y, env, w)))[1:], outW(evalAstOut(y, env, w)))) != nil, failure(o, outW(fnOut(lst(outV(evalAstOut(y, env, w)))[0].(Func).Fn, lst(outV(evalAstOut(y, env, w)))[1:], outW(evalAstOut(y, env, w))))), o == out(outV(fnOut(lst(outV(evalAstOut(y, env, w)))[0].(Func).Fn, lst(outV(evalAstOut(y, env, w)))[1:], outW(evalAstOut(y, env, w)))), nil, outW(fnOut(lst(outV(evalAstOut(y, env, w)))[0].(Func).Fn, lst(outV(evalAstOut(y, env, w)))[1:], outW(evalAstOut(y, env, w)))))), failure(o, outW(evalAstOut(y, env, w))))))
+//@ spec formStep(y MalType, env EnvType, w World, o Outcome) bool = ite(!is(y, List), o == evalAstOut(y, env, w), ite(len(lst(y)) == 0, o == out(y, nil, w), ite(head(y) == "def", defStep(y, env, w, o), ite(head(y) == "let", letStep(y, env, w, o), ite(head(y) == "quote", o == out(arg(y, 1), nil, w), ite(head(y) == "quasiquoteexpand", o == out(qqV(arg(y, 1)), nil, w), ite(head(y) == "quasiquote", o == evalOut(qqV(arg(y, 1)), env, w), ite(head(y) == "defmacro", defmacroStep(y, env, w, o), ite(head(y) == "macroexpand", o == mexpOut(arg(y, 1), env, w), ite(head(y) == "try", tryStep(y, env, w, o), ite(head(y) == "do", bodyTail(lst(y)[1:], env, w, o), ite(head(y) == "if", ifStep(y, env, w, o), ite(head(y) == "fn", fnStep(y, env, w, o), callStep(y, env, w, o))))))))))))))
+//@ spec letStep(y MalType, env EnvType, w World, o Outcome) bool = true
+//@ spec tryStep(y MalType, env EnvType, w World, o Outcome) bool = true
+//@ spec evalStep(x MalType, env EnvType, w World, o Outcome) bool = ite(!is(x, List), o == evalAstOut(x, env, w), ite(outE(mexpOut(x, env, w)) != nil, o == propagate(mexpOut(x, env, w)), formStep(outV(mexpOut(x, env, w)), env, outW(mexpOut(x, env, w)), o)))
